@@ -384,6 +384,28 @@ def disk_locations(cases, workdir, harness):
         if line.startswith('NODE '):
             n = parse_kv(line.rstrip('\n'))
             by_file.setdefault(unhx(n['file']), []).append(n)
+    # a part of the inputs once more under other environments (variables, locale, CPUs, open-file limit): the scan
+    # must end normally and report the same number of entities
+    from common import ENV_MATRIX, run_env
+    envroot = os.path.join(workdir, 'disk_env')
+    shutil.rmtree(envroot, ignore_errors=True)
+    sub = [c for c in cases if not os.path.isabs(c['path'])]
+    sub = sub[:25] + [c for c in sub[25:] if c['id'][0] in 'wbl'][:40]
+    for c in sub:
+        p_ = os.path.join(envroot, c['id'], c['path'])
+        os.makedirs(os.path.dirname(p_), exist_ok=True)
+        with open(p_, 'wb') as f:
+            f.write(c['data'])
+    counts = []
+    for ov in [('default', {}, None)] + ENV_MATRIX:
+        rc, so, se = run_env([harness, 'init-dump', envroot, out + '.env'], ov, timeout=900, base=dict(os.environ, HOME=workdir))
+        stats['environments'] += 1
+        n_ = sum(1 for l in open(out + '.env') if l.startswith('NODE ')) if rc == 0 else -1
+        counts.append(n_)
+        if rc != 0 or n_ != counts[0]:
+            bad.append(dict(what='graph.Initialize on %d of the written files %s in another environment (%s)' % (len(sub), 'fails (rc=%d)' % rc if rc != 0 else 'reports %d entities instead of %d' % (n_, counts[0]), ov[0]),
+                            file='environment %r, limit on open files %r; %s' % (ov[1], ov[2], se.decode(errors='replace')[-300:])))
+            break
     for f, nodes in by_file.items():
         c = written.get(f)
         if c is None:
@@ -424,6 +446,25 @@ def disk_census(cases, recs, workdir, harness, ncopies=12):
             expect[lk.encode('utf-8')] = (want, c)
         except OSError:
             pass
+        # the same content reached through symbolic links: a relative one to a file of the project, an absolute one
+        # to a file OUTSIDE the project (shared / generated sources linked into a workspace)
+        sl = os.path.join(root, 'a/%s/Sym_%s' % (c['id'], base))
+        os.symlink(base, sl)
+        expect[sl.encode('utf-8')] = (want, c)
+        outside = os.path.join(workdir, 'census_outside', c['id'] + '.java')
+        os.makedirs(os.path.dirname(outside), exist_ok=True)
+        with open(outside, 'wb') as f:
+            f.write(c['data'])
+        sl2 = os.path.join(root, 'linked/%s/%s' % (c['id'], base))
+        os.makedirs(os.path.dirname(sl2), exist_ok=True)
+        os.symlink(outside, sl2)
+        expect[sl2.encode('utf-8')] = (want, c)
+    # more files than a small limit on open files allows at once (walked before the family's directories)
+    for k in range(150):
+        p = os.path.join(root, '0crowd/d%d/T%03d.java' % (k % 7, k))
+        os.makedirs(os.path.dirname(p), exist_ok=True)
+        with open(p, 'wb') as f:
+            f.write(b'class T%03d { int f%d = %d + 1; void m() { g(%d); } }\n' % (k, k, k, k))
     out = os.path.join(workdir, 'census_dump.txt')
     p = subprocess.run([harness, 'init-dump', root, out], capture_output=True, timeout=1800, env=dict(os.environ, HOME=workdir))
     stats, bad = Counter(census_files=len(expect)), []
@@ -444,7 +485,32 @@ def disk_census(cases, recs, workdir, harness, ncopies=12):
                             case=c, detail=dict(file=f.decode('utf-8', 'replace'), entities=sum(g.values()), expected=sum(want.values()),
                                                 missing=[(k[0].decode(), k[1], k[2][:60].decode('utf-8', 'replace')) for k, _ in miss],
                                                 unexpected=[(k[0].decode(), k[1], k[2][:60].decode('utf-8', 'replace')) for k, _ in extra])))
+    crowd = os.path.join(root, '0crowd').encode('utf-8')
     for f in got:
-        if f not in expect:
+        if f not in expect and not f.startswith(crowd):
             bad.append(dict(what='an entity is reported for a file that is not in the project', detail=dict(file=f.decode('utf-8', 'replace'))))
+    ncrowd = sum(1 for f in got if f.startswith(crowd))
+    if ncrowd != 150:
+        bad.append(dict(what='%d of 150 small files of the project are represented' % ncrowd, detail=dict(files='0crowd/d<k>/T<nnn>.java: class T<nnn> { int f = n + 1; void m() { g(n); } }')))
+    # the same scan in other environments (variables, locale, number of CPUs, limit on open files): same entities
+    from common import ENV_MATRIX, run_env
+    for ov in ENV_MATRIX:
+        out2 = os.path.join(workdir, 'census_dump_env.txt')
+        rc, so, se = run_env([harness, 'init-dump', root, out2], ov, timeout=900, base=dict(os.environ, HOME=workdir))
+        stats['census_environments'] += 1
+        if rc != 0:
+            bad.append(dict(what='graph.Initialize on the project fails in another environment (%s): rc=%d' % (ov[0], rc), detail=dict(environment=ov[1], open_files=ov[2], stderr=se.decode(errors='replace')[-300:])))
+            break
+        got2 = {}
+        for line in open(out2):
+            if line.startswith('NODE '):
+                n = parse_kv(line.rstrip('\n'))
+                got2.setdefault(unhx(n['file']), Counter())[(unhx(n['type']), int(n['line']), unhx(n['snippet']))] += 1
+        if got2 != got:
+            lost = [f for f in got if got2.get(f) != got[f]][:3]
+            bad.append(dict(what='the entities of a project depend on the environment of the scan (%s)' % ov[0],
+                            detail=dict(environment=ov[1], open_files=ov[2], files_differing=len([f for f in set(got) | set(got2) if got2.get(f) != got.get(f)]),
+                                        e_g=[(f.decode('utf-8', 'replace'), sum(got[f].values()), sum(got2.get(f, Counter()).values())) for f in lost],
+                                        project='%d files: family files with byte-identical copies, a hard link, symbolic links, and 150 small files under 0crowd/' % len(got))))
+            break
     return stats, bad
